@@ -6,14 +6,14 @@ variable {s s' : St}
 
 /-- evaluates the pc classes at concrete pcs -/
 macro "cls " h:ident : tactic => `(tactic|
-  simp [$h:ident, cIn, idxV, rCall, rStopping, exitPc, rJoinPc, stopsV, setupPc, getPathPc, loopPc, flowChk, runSetPc])
+  simp [$h:ident, cIn, idxV, rCall, rStopping, exitPhasePc, rJoinPc, stopsV, setupPc, getPathPc, loopPc, flowChk, runSetPc])
 
-theorem cur_isSome_of (hS : SafeInv s) (h1 : preStart s = false) (h2 : exitPc s.cpc = false) : s.cur.isSome = true := by
+theorem cur_isSome_of (hS : SafeInv s) (h1 : preStart s = false) (h2 : exitPhasePc s.cpc = false) : s.cur.isSome = true := by
   cases hc : s.cur with
   | none =>
     have := hS.noCall hc
     rw [h1] at this
-    cases hcp : s.cpc <;> simp [hcp, exitPc] at h2 this
+    cases hcp : s.cpc <;> simp [hcp, exitPhasePc] at h2 this
   | some c => rfl
 
 theorem woken_false_of (hV : LiveInv s) (h : cIn s.cpc = false) : s.woken = false := by
@@ -52,7 +52,7 @@ theorem LiveInv_stepC_a (hL : LInv s) (hV : LiveInv s) (h : stepC s = some s')
           · rename_i hcnd
             apply LiveInv_move hV1 (by samec) (by rfl) (by rfl) <;> dsimp only <;> try cls hcpc1
             exact hcnd.2
-          · rw [toNextCall_cpc]
+          · rw [toNextCall_setCpc]
             exact LiveInv_toNextCall hV1 (by rw [hcpc1]; rfl) (by rw [hcpc1]; rfl) (by rw [hcpc1]; simp [rStopping])
   case readyWait i =>
     split at h
@@ -66,7 +66,7 @@ theorem LiveInv_stepC_a (hL : LInv s) (hV : LiveInv s) (h : stepC s = some s')
             apply LiveInv_move hV (by samec) (by rfl) (by rfl) <;> dsimp only <;> try cls hpc
             exact hlt
           · simp only [Option.some.injEq] at h; subst h
-            rw [toNextCall_cpc]
+            rw [toNextCall_setCpc]
             exact LiveInv_toNextCall hV (by rw [hpc]; rfl) (by rw [hpc]; rfl) (by rw [hpc]; simp [rStopping])
         · cases h
   case nextCall =>
@@ -148,8 +148,8 @@ theorem LiveInv_stepC_b (hS : SafeInv s) (hV : LiveInv s) (hw : WellCfg s.cfg) (
     (hc : loopPc s.cpc = true) : LiveInv s' := by
   have hpre : preStart s = false := by
     unfold preStart; cases hcp : s.cpc <;> simp [hcp, loopPc] at hc ⊢
-  have hex : exitPc s.cpc = false := by
-    cases hcp : s.cpc <;> simp [hcp, loopPc, exitPc] at hc ⊢
+  have hex : exitPhasePc s.cpc = false := by
+    cases hcp : s.cpc <;> simp [hcp, loopPc, exitPhasePc] at hc ⊢
   have hcur := cur_isSome_of hS hpre hex
   obtain ⟨call, hcall⟩ := Option.isSome_iff_exists.1 hcur
   cases hpc : s.cpc <;> simp only [hpc, loopPc] at hc <;> simp only [stepC, hpc] at h <;> try cases hc
@@ -274,5 +274,156 @@ theorem LiveInv_stepC_b (hS : SafeInv s) (hV : LiveInv s) (hw : WellCfg s.cfg) (
     · exact LockI_congr hV.lk rfl (by cls hpc) rfl
     · apply ConsI_gen hV.cs (by rfl) (by rfl) (by rfl) (by rfl) <;> (try dsimp only) <;> try cls hpc
       exact hwk
+
+
+/-- the pc after the last stop order / after a join: `done` or a valid `exitJoin` -/
+theorem exitJoinFrom_cls (s0 : St) (i : Nat) (hi : i ≤ s0.procs.length) :
+    ∀ c', c' = exitJoinFrom s0 (s0.procs.length + 1) i →
+      cIn c' = false ∧ idxV c' s0.procs.length ∧ rCall c' = false ∧ rStopping c' = false ∧ exitPhasePc c' = true ∧
+      rJoinPc c' = false ∧ stopsV c' s0.procs.length = s0.procs.length ∧ setupPc c' = false ∧ getPathPc c' = false ∧
+      loopPc c' = false ∧ runSetPc c' = false := by
+  intro c' hc'
+  rcases exitJoinFrom_idx s0 (s0.procs.length + 1) i hi (by omega) with h | ⟨k, h, hk⟩
+  · rw [hc', h]; simp [cIn, idxV, rCall, rStopping, exitPhasePc, rJoinPc, stopsV, setupPc, getPathPc, loopPc, runSetPc]
+  · rw [hc', h]; simp [cIn, idxV, rCall, rStopping, exitPhasePc, rJoinPc, stopsV, setupPc, getPathPc, loopPc, runSetPc, hk]
+
+theorem LiveInv_stepC_c (hV : LiveInv s) (h : stepC s = some s')
+    (hc : match s.cpc with
+      | .fStopSet | .fJoin | .rPutNone | .rStopSet | .rJoin | .exitPut _ | .exitJoin _ | .done => True
+      | _ => False) : LiveInv s' := by
+  cases hpc : s.cpc <;> simp only [hpc] at hc <;> simp only [stepC, hpc] at h
+  case fStopSet =>
+    simp only [Option.some.injEq] at h; subst h
+    apply LiveInv_move hV (by samec) (by rfl) (by rfl) <;> (try dsimp only) <;> try cls hpc
+  case fJoin =>
+    split at h
+    · cases h
+    · split at h
+      · rename_i hfac
+        simp only [Option.some.injEq] at h; subst h
+        apply LiveInv_move hV (by samec) (by rfl) (by rfl) <;> (try dsimp only) <;> try cls hpc
+        exact hfac
+      · simp only [Option.some.injEq] at h; subst h
+        rw [toNextCall_setCpc]
+        exact LiveInv_toNextCall hV (by rw [hpc]; rfl) (by rw [hpc]; rfl) (by rw [hpc]; simp [rStopping])
+  case rPutNone =>
+    simp only [Option.some.injEq] at h; subst h
+    have hfac := hV.rp.rFac (Or.inl hpc)
+    have hal := hV.rp.rLive hfac (by rw [hpc]; rfl)
+    have htok := hV.rp.tokR
+    rw [hpc] at htok; simp only [rStopping, Bool.false_eq_true, false_and, if_false] at htok
+    have hwk := woken_false_of hV (by rw [hpc]; rfl)
+    obtain ⟨lk, pr, rp, cs, ct⟩ := hV
+    have hp : pending { s with replQ := s.replQ ++ [none], cpc := .rStopSet } = pending s := by
+      unfold pending; simp [List.filterMap_append]
+    refine ⟨LockI_congr lk rfl (by cls hpc) rfl, ProcI_congr pr rfl rfl rfl (fun _ hh => hh) (by cls hpc), ?_, ?_,
+      CntI_congr' ct rfl (by rw [hp]) rfl rfl rfl (by cls hpc) (by unfold stopsSent; cls hpc)⟩
+    · constructor
+      · intro _ hh; cases hh
+      · exact rp.rNotIdle
+      · show noneCount (s.replQ ++ [none]) = _
+        rw [noneCount_append_none, htok]
+        simp [rStopping, hal]
+      · intro x hx hxpc hxin
+        rcases rp.exitedL x hx hxpc hxin with hh | ⟨hf, hq⟩
+        · rw [hpc] at hh; cases hh
+        · exact Or.inr ⟨hf, by rw [hp]; exact hq⟩
+      · intro _; exact rp.noStop (by rw [hpc]; rfl)
+      · intro _; exact hfac
+    · apply ConsI_gen cs (by rfl) (by rfl) (by rfl) (by rfl) <;> (try dsimp only) <;> try cls hpc
+      exact hwk
+  case rStopSet =>
+    simp only [Option.some.injEq] at h; subst h
+    apply LiveInv_move hV (by samec) (by rfl) (by rfl) <;> (try dsimp only) <;> try cls hpc
+  case rJoin =>
+    split at h
+    · cases h
+    · rename_i hal
+      simp only [Option.some.injEq] at h; subst h
+      rw [toNextCall_setCpc]
+      exact LiveInv_toNextCall hV (by rw [hpc]; rfl) (by rw [hpc]; rfl) (by simp at hal; simp [hal])
+  case exitPut i =>
+    have hidx : i < s.procs.length := by have := hV.pr.idx; rw [hpc] at this; exact this
+    have hwk := woken_false_of hV (by rw [hpc]; rfl)
+    split at h
+    · cases h
+    · -- the state after the put, with the new pc `c'`
+      have key : ∀ c', idxV c' s.procs.length → cIn c' = false → rCall c' = false → rStopping c' = false →
+          exitPhasePc c' = true → rJoinPc c' = false → stopsV c' s.procs.length = i + 1 → setupPc c' = false →
+          getPathPc c' = false → loopPc c' = false → runSetPc c' = false →
+          LiveInv { s with workQ := s.workQ ++ [none], cpc := c' } := by
+        intro c' q1 q2 q3 q4 q5 q6 q7 q8 q9 q10 q11
+        obtain ⟨lk, pr, rp, cs, ct⟩ := hV
+        refine ⟨LockI_congr lk rfl (by rw [hpc]; exact q2) rfl, ProcI_congr pr rfl rfl rfl (fun _ hh => hh) q1,
+          ReplI_congr rp rfl rfl rfl rfl rfl rfl ?_ ?_ (by rw [hpc]; exact q4) (by rw [hpc]; exact q5) ?_, ?_, ?_⟩
+        · intro hh; have : exitPhasePc c' = false := hh; rw [q5] at this; cases this
+        · intro hh; have : rCall c' = true := hh; rw [q3] at this; cases this
+        · intro hh
+          have := (rJoinPc_iff c').2 hh
+          rw [q6] at this; cases this
+        · apply ConsI_gen cs (by rfl) (by rfl) (by rfl) (by rfl)
+          · intro hh; have : setupPc c' = true := hh; rw [q8] at this; cases this
+          · intro _; rw [hpc]; rfl
+          · intro hh; have : s.woken = true := hh; rw [hwk] at this; cases this
+          · intro hh; have : getPathPc c' = true := hh; rw [q9] at this; cases this
+          · intro hh; have : loopPc c' = true := hh; rw [q10] at this; cases this
+          · intro hh; have : runSetPc c' = true := hh; rw [q11] at this; cases this
+        · obtain ⟨k1, k2, k3, k4⟩ := ct
+          have hex : exitPhasePc s.cpc = true := by rw [hpc]; rfl
+          have hss : stopsSent s = i := by unfold stopsSent; rw [hpc]; rfl
+          have hss' : stopsSent { s with workQ := s.workQ ++ [none], cpc := c' } = i + 1 := by unfold stopsSent; exact q7
+          have hn : noneCount (s.workQ ++ [none]) = noneCount s.workQ + 1 := noneCount_append_none _
+          have h2 := k2 hex
+          have h3 := k3 hex
+          rw [hss] at h2 h3
+          constructor
+          · exact k1
+          · intro _; rw [hss']; show liveCnt s + (i + 1) ≤ noneCount (s.workQ ++ [none]) + s.procs.length; omega
+          · intro _; rw [hss']; show noneCount (s.workQ ++ [none]) ≤ i + 1; omega
+          · intro hf; rw [hss']
+            have h4 := k4 hf; rw [hss] at h4
+            show noneCount (s.workQ ++ [none]) + s.procs.length ≤ liveCnt s + (i + 1); omega
+      split at h
+      · rename_i hlt
+        simp only [Option.some.injEq] at h; subst h
+        exact key (.exitPut (i + 1)) hlt rfl rfl rfl rfl rfl rfl rfl rfl rfl rfl
+      · rename_i hge
+        simp only [Option.some.injEq] at h; subst h
+        have hlen : s.procs.length = i + 1 := by
+          have : ¬ (i + 1 < s.procs.length) := hge
+          omega
+        obtain ⟨q2, q1, q3, q4, q5, q6, q7, q8, q9, q10, q11⟩ :=
+          exitJoinFrom_cls { s with workQ := s.workQ ++ [none], cpc := .exitPut i } 0 (Nat.zero_le _) _ rfl
+        exact key _ q1 q2 q3 q4 q5 q6 (by rw [← hlen]; exact q7) q8 q9 q10 q11
+  case exitJoin i =>
+    have hidx : i < s.procs.length := by have := hV.pr.idx; rw [hpc] at this; exact this
+    split at h
+    · cases h
+    · split at h
+      · simp only [Option.some.injEq] at h; subst h
+        obtain ⟨q2, q1, q3, q4, q5, q6, q7, q8, q9, q10, q11⟩ := exitJoinFrom_cls s (i + 1) hidx _ rfl
+        apply LiveInv_move hV (by samec) (by rfl) (by rfl) <;> (try dsimp only) <;> (try rw [hpc])
+        · rw [q2]; rfl
+        · exact q1
+        · intro hh; rw [q3] at hh; cases hh
+        · rw [q4]; rfl
+        · rw [q5]; rfl
+        · intro hh; rw [q6] at hh; cases hh
+        · rw [q7]; rfl
+        · intro hh; rw [q8] at hh; cases hh
+        · intro hh; rw [q9] at hh; cases hh
+        · intro hh; rw [q10] at hh; cases hh
+        · intro hh; rw [q11] at hh; cases hh
+      · cases h
+  case done => cases h
+
+theorem LiveInv_stepC (hS : SafeInv s) (hL : LInv s) (hV : LiveInv s) (hw : WellCfg s.cfg) (h : stepC s = some s') :
+    LiveInv s' := by
+  cases hpc : s.cpc
+  case rdSending | rdDataCnt | qsize1 | lockAcq | qsize2 | getNowait | lockRel | getBlock | flowClear | flowIsSet | flowSet =>
+    exact LiveInv_stepC_b hS hV hw h (by rw [hpc]; rfl)
+  case fStopSet | fJoin | rPutNone | rStopSet | rJoin | exitPut | exitJoin | done =>
+    exact LiveInv_stepC_c hV h (by rw [hpc]; trivial)
+  all_goals exact LiveInv_stepC_a hL hV h (by rw [hpc]; trivial)
 
 end WindVerif.Pool
